@@ -1,8 +1,10 @@
 ---------------------------------- MODULE MC ----------------------------------
-(* Exhaustive model checking of MessageLog: the probe lists (sequences cannot be written
-   in a TLC configuration file) and nothing else. *)
-EXTENDS MessageLog
+(* Exhaustive model checking of MessageLog with the exact-proposal path (MessageLogX):
+   the probe lists (sequences cannot be written in a TLC configuration file) and nothing
+   else. *)
+EXTENDS MessageLogX
 MCProbeIds   == << 1, 2, 3 >>
 MCProbeFroms == << "u1" >>
 MCProbeNos   == << "n1" >>
+MCProbePids  == << 1, 2 >>
 ===============================================================================
